@@ -85,4 +85,38 @@ example : (Gen.M33.sansScaling (1 / 1024 : ℝ) 2 Real.sqrt Real.sin Real.cos (f
     (Gen.M33.sansScaling (1 / 1024 : ℝ) 2 Real.sqrt Real.sin Real.cos (fun y x => Complex.arg ⟨x, y⟩) W345).x21 = 4 :=
   (M33_sansScaling_witness (fun x hx => ⟨Real.sqrt_nonneg x, Real.mul_self_sqrt hx⟩) trigSpec_real (by norm_num)).2
 
+/-! ## Unconditional forms (2-D): every affine `M` with non-singular linear part, `1 < numeric_limits<T>::max ()` -/
+
+/-- `sansScaling` / `removeScaling (Matrix33)`: succeed, and `scale * result = M` for the scale `extractScaling` reports -/
+theorem M33_sansScaling_total {tmin tmax : α} {sqrt sin cos : α → α} {atan2 : α → α → α}
+    (hs : SqrtSpec sqrt) (ht : TrigSpec sin cos atan2) (h1 : 1 < tmax) {m : M33 α} (ha : Affine2 m) (hd : (lin2 m).det ≠ 0) :
+    ∃ s, Gen.M33.extractScaling tmin tmax sqrt m = (true, s) ∧
+      scaleH2 s * (Gen.M33.sansScaling tmin tmax sqrt sin cos atan2 m).toMat = m.toMat ∧
+      Gen.M33.removeScaling tmin tmax sqrt sin cos atan2 m = (true, Gen.M33.sansScaling tmin tmax sqrt sin cos atan2 m) := by
+  obtain ⟨r, he⟩ := Option.isSome_iff_exists.mp ((M33_extractAndRemoveScalingAndShear_succeeds_iff (tmin := tmin) hs h1 m).mpr hd)
+  exact ⟨r.scl, by rw [M33_extractScaling, he], (M33_sansScaling_recompose hs ht ha he).2, by rw [M33_removeScaling, he]⟩
+
+/-- `extractScalingAndShear`, `sansScalingAndShear`, `removeScalingAndShear (Matrix33)`: succeed, the residual `R` is a rotation
+(orthonormal, determinant +1) with the translation row of `M`, and `scale * shear * R = M` -/
+theorem M33_sansScalingAndShear_total {tmin tmax : α} {sqrt : α → α}
+    (hs : SqrtSpec sqrt) (h1 : 1 < tmax) {m : M33 α} (ha : Affine2 m) (hd : (lin2 m).det ≠ 0) :
+    ∃ s h, Gen.M33.extractScalingAndShear tmin tmax sqrt m = (true, s, h) ∧ Gen.M33.extractScaling tmin tmax sqrt m = (true, s) ∧
+      Gen.M33.removeScalingAndShear tmin tmax sqrt m = (true, Gen.M33.sansScalingAndShear tmin tmax sqrt m) ∧
+      Gen.M33.sansScalingAndShearExc tmin tmax sqrt m = .ok (Gen.M33.sansScalingAndShear tmin tmax sqrt m) ∧
+      lin2 (Gen.M33.sansScalingAndShear tmin tmax sqrt m) * (lin2 (Gen.M33.sansScalingAndShear tmin tmax sqrt m))ᵀ = 1 ∧
+      (lin2 (Gen.M33.sansScalingAndShear tmin tmax sqrt m)).det = 1 ∧
+      scaleH2 s * shearH2 h * (Gen.M33.sansScalingAndShear tmin tmax sqrt m).toMat = m.toMat := by
+  obtain ⟨r, he⟩ := Option.isSome_iff_exists.mp ((M33_extractAndRemoveScalingAndShear_succeeds_iff (tmin := tmin) hs h1 m).mpr hd)
+  obtain ⟨e, ho, hdet, c0, c1, t0, t1, t2, _⟩ := ear33_spec (V2_length_spec hs) he
+  have hS : Gen.M33.sansScalingAndShear tmin tmax sqrt m = r.m := by rw [M33_sansScalingAndShear, he]
+  refine ⟨r.scl, r.shr, by rw [M33_extractScalingAndShear, he], by rw [M33_extractScaling, he],
+    by rw [M33_removeScalingAndShear, he, hS], by rw [M33_sansScalingAndShearExc, he, hS], by rw [hS]; exact ho, by rw [hS]; exact hdet, ?_⟩
+  rw [hS]
+  have := homog2 ha e
+  obtain ⟨a1, a2, a3⟩ := ha
+  rw [← this]
+  ext i j
+  fin_cases i <;> fin_cases j <;>
+    simp [M33.toMat, scaleH2, shearH2, linH2, transH2, Matrix.mul_apply, Fin.sum_univ_three, c0, c1, t0, t1, t2, a1, a2, a3]
+
 end ImathVerif.C12
